@@ -40,6 +40,7 @@ type CfgA struct {
 	Pre    Pre            `prefix:"c09.a.pre"`
 	OptPre map[string]any `prefix:"c09.a.optpre,required=false"`
 	OptW   zoo.IC         `wire:",required=false"`
+	OptArr [2]zoo.INode   `wire:",required=false"` // arrays are never filled: stays zero, never a failure
 }
 
 type CfgB struct {
@@ -121,6 +122,25 @@ type BadSliceVal struct {
 	zoo.Core
 	X []Pre `func:"Sel"`
 }
+type BadArray struct {
+	zoo.Core
+	X [2]zoo.INode `wire:""` // a fixed-size array is no collection the container fills
+}
+type BadFuncArray struct {
+	zoo.Core
+	X [2]zoo.INode `func:"Sel"`
+}
+
+// PPHolder is a (non-lazy, pass-through) component post-processor that has a required point of its own - two roles
+// on one component.
+type PPHolder struct {
+	zoo.Core
+	Dep *QDep `wire:""`
+}
+
+func (*PPHolder) PostProcessBeforeInitialization(c any, n string) (any, error) { return c, nil }
+func (*PPHolder) PostProcessAfterInitialization(c any, n string) (any, error)  { return c, nil }
+
 type BadNamedSlice struct {
 	zoo.Core
 	X []zoo.INode `wire:"factory-pp"` // a name on a slice
@@ -413,6 +433,13 @@ func build(b *Base, faults []Site) *built {
 				c = &BadMap{Core: zoo.Core{B: bh}}
 			case 2:
 				c = &BadSliceVal{Core: zoo.Core{B: bh}}
+			case 4:
+				c = &BadArray{Core: zoo.Core{B: bh}}
+			case 5:
+				c = &BadFuncArray{Core: zoo.Core{B: bh}}
+			case 6:
+				// a post-processor component whose required point has no candidate (QDep is registered with q-pairs only)
+				c = &PPHolder{Core: zoo.Core{B: bh}}
 			default:
 				c = &BadNamedSlice{Core: zoo.Core{B: bh}}
 			}
@@ -520,7 +547,10 @@ func sites(b *Base) []Site {
 			}
 		}
 	}
-	for v := 0; v < 4; v++ {
+	for v := 0; v < 7; v++ {
+		if v == 6 && b.QPair {
+			continue // a QDep exists: the post-processor's point is satisfiable
+		}
 		out = append(out, Site{Kind: "unsat-uninjectable", A: v})
 	}
 	for j := 0; j < b.Loaders; j++ {
